@@ -335,6 +335,7 @@ type c22HandlerIn struct {
 	nested      bool
 	parts       [][]byte
 	atEOF       func()
+	failAt      int // > 0: the connection accepts this many bytes of the response, then every write fails (client gone)
 }
 
 type c22HandlerOut struct {
@@ -470,6 +471,9 @@ func c22RunHandler(in *c22HandlerIn) *c22HandlerOut {
 	}
 	var wb bytes.Buffer
 	bw := bufio.NewWriter(&wb)
+	if in.failAt > 0 {
+		bw = bufio.NewWriterSize(&c22FailWriter{left: in.failAt}, 512)
+	}
 	out.werr = ctx.Response.Write(bw)
 	bw.Flush() //nolint:errcheck
 	ctx.Response.Reset()
@@ -893,6 +897,86 @@ func c22Sat(a [][]byte) *Case {
 		}}
 }
 
+// c22FailWriter accepts `left` bytes, then every Write fails: a peer that went away in the middle of a response.
+type c22FailWriter struct {
+	left int
+	got  []byte
+}
+
+func (w *c22FailWriter) Write(p []byte) (int, error) {
+	if len(p) > w.left {
+		n := w.left
+		w.got = append(w.got, p[:n]...)
+		w.left = 0
+		return n, fmt.Errorf("c22: destination write failed")
+	}
+	w.left -= len(p)
+	w.got = append(w.got, p...)
+	return len(p), nil
+}
+
+// c22FailThenGood: a compression through the pooled stackless writers whose DESTINATION fails after k bytes (entry point
+// Write*Level to a plain io.Writer, or a streamed handler response to a connection that goes away), followed by further
+// compressions with the same coding and level (the pooled writer is re-acquired): each of those must produce a coding
+// of ITS input only.
+func c22FailThenGood(a [][]byte) *Case {
+	if len(a) != 6 || len(a[1]) != 1 {
+		return nil
+	}
+	c22Init()
+	kind, via, level, k, src1, src2 := string(a[0]), a[1][0], c22Atoi(a[2]), c22Atoi(a[3]), a[4], a[5]
+	if !c22IsKind(kind) || (via != 'G' && via != 'S') || c22LevelBad(kind, level) || k < 1 {
+		return nil
+	}
+	var v Verdict
+	failed := 0
+	handlerIn := func(body []byte, failAt int) *c22HandlerIn {
+		return &c22HandlerIn{which: 'B', level: level, bl: level, ae: []byte(kind), hasAE: true, mode: 's',
+			parts: [][]byte{body[:len(body)/2], body[len(body)/2:]}, failAt: failAt}
+	}
+	for round := 0; round < 3 && v.Kind == VOk; round++ { // pools are per-P: a few rounds make the re-acquisition near certain
+		if via == 'G' {
+			fw := &c22FailWriter{left: k}
+			var err error
+			switch kind {
+			case "gzip":
+				_, err = fasthttp.WriteGzipLevel(fw, src1, level)
+			case "deflate":
+				_, err = fasthttp.WriteDeflateLevel(fw, src1, level)
+			case "br":
+				_, err = fasthttp.WriteBrotliLevel(fw, src1, level)
+			case "zstd":
+				_, err = fasthttp.WriteZstdLevel(fw, src1, level)
+			}
+			if err != nil {
+				failed++
+			}
+			for i := 0; i < 2 && v.Kind == VOk; i++ {
+				out, err := c22Compress(kind, 'G', level, nil, src2)
+				v = c22CheckOutput(kind, 'G', level, nil, src2, out, err, "after-failed-write")
+			}
+		} else {
+			if out := c22RunHandler(handlerIn(src1, k)); out.werr != nil {
+				failed++
+			}
+			for i := 0; i < 2 && v.Kind == VOk; i++ {
+				in := handlerIn(src2, 0)
+				out := c22RunHandler(in)
+				v, _ = c22JudgeHandler(in, out, kind)
+				if v.Kind == VSpec {
+					v.Key = "after-failed-write-" + v.Key
+				}
+			}
+		}
+	}
+	if v.Kind == VSpec {
+		v.Detail = fmt.Sprintf("after a %s compression (level %d) whose destination failed after %d bytes: %s", kind, level, k, v.Detail)
+	}
+	impl := fmt.Sprintf("failed=%d verdict=%d", failed, v.Kind)
+	return &Case{Impl: impl, Nontrivial: failed > 0, Tags: []string{"failw-" + kind + "-" + string(via), fmt.Sprintf("failw-failed-%v", failed > 0)},
+		Judge: func([]string) Verdict { return v }}
+}
+
 // c22Tail: the queue becomes full only while a streamed, compressed response is already under way (the stream's
 // last Read fills it): the final Close of the stackless writer then meets a full queue.
 func c22Tail(a [][]byte) *Case {
@@ -1305,7 +1389,7 @@ func init() {
 		Rule: "handler: CompressHandler/CompressHandlerLevel/CompressHandlerBrotliLevel (also nested) around a handler with body sizes around minCompressLen and up to 1 MiB (thorough 4 MiB), buffered/stream/declared-size stream/StreamWriter, " +
 			"levels -5..15, Accept-Encoding lists (q-values, look-alikes xgzip / gzip;q=0 / identity,gzip / x gzip, case, OWS), content types, handler-set Content-Encoding and Vary (incl. look-alike X-Accept-Encoding); response parsed by net/http and decoded by independent decoders; " +
 			"ae: HasAcceptEncodingBytes on generated lists vs model and RFC 9110 weights; codec: Append*/Write* (5 entry points x 4 codings x levels) round trip; sat: every stackless queue filled deterministically (workers held by gated jobs) then probed through Append*/Write*/handlers; " +
-			"tail: queue filled during a streamed response's last Read; newfunc: stackless.NewFunc phase scripts vs the queue model; storm: thousands of concurrent calls with distinct payloads. non-trivial = compressed or pre-encoded or body >= 150 / queue really full; distinct = distinct input",
+			"failw: a compression through the pooled stackless writers whose destination fails after k bytes (Write*Level to an io.Writer, streamed handler response), then the same coding and level again; tail: queue filled during a streamed response's last Read; newfunc: stackless.NewFunc phase scripts vs the queue model; storm: thousands of concurrent calls with distinct payloads. non-trivial = compressed or pre-encoded or body >= 150 / queue really full; distinct = distinct input",
 		Assumptions: []string{
 			"third-party codecs are correct: dec (enc lvl x) = some x (hypothesis field of the Codecs structure; checked on every generated input, not proved)",
 			"Accept-Encoding values that violate the RFC 9110 list syntax have no defined meaning: the accepted-coding monitor applies to syntactically valid lists (invalid ones are generated and tagged ae-malformed)",
@@ -1322,6 +1406,8 @@ func init() {
 				return c22Codec(a)
 			case "sat":
 				return c22Sat(a)
+			case "failw":
+				return c22FailThenGood(a)
 			case "tail":
 				return c22Tail(a)
 			case "newfunc":
@@ -1368,6 +1454,18 @@ func init() {
 			}
 			for _, k := range c22Kinds {
 				emit("tail", B(k), text(600+r.Intn(4000)))
+			}
+			// destination failing at byte k, then the same coding and level again: every coding, both routes, levels incl. default
+			nfw := 80
+			if tier == "thorough" {
+				nfw = 1500
+			}
+			for i := 0; i < nfw; i++ {
+				k := c22Kinds[i%4]
+				via := []byte("GS")[(i/4)%2]
+				lv := []int{6, 1, 9, 4, -5, 11, 3}[r.Intn(7)]
+				fail := []int{1, 5, 11, 30, 100, 400, 3000}[r.Intn(7)]
+				emit("failw", B(k), []byte{via}, N(lv), N(fail), text(500+r.Intn(20000)), text(250+r.Intn(3000)))
 			}
 			aes := []string{"gzip", "deflate", "br", "zstd", "gzip, deflate, br", "gzip, deflate, br, zstd", "deflate, gzip;q=1.0, *;q=0.5", "gzip;q=0", "gzip;q=0, deflate", "br;q=0.9, gzip",
 				"xgzip", "gzipx", "x-gzip", "x-gzip, gzip", "identity,gzip", "identity, gzip", "x gzip", "gzip ", " gzip", "GZIP", "Gzip, Deflate", "*", "*;q=0", "identity", "", "gzip,", ",gzip", ", gzip",
